@@ -19,7 +19,8 @@ func init() {
 			"R6.2 omitting semicolons is safe only if no statement can continue the previous line: for every statement list, the lexemes that can start a statement are intersected with the tokens that continue an expression after a line break (infix entries, backtick), and a keyword written after a child statement needs that child to end in ';' or '}' (genuine defects found here are listed as known findings); " +
 			"R6.3 a post-pass over the emitted text must not rewrite the lines of a multi-line literal (known finding: trailing spaces inside a backtick literal are trimmed); " +
 			"R6.4 in both pretty modes no two adjacent lexemes fuse (= R1.2 restricted to pretty output), so pretty and compact output lex to the same token sequence; " +
-			"R6.5 the flush of pending layout leaves nothing pending on any return (cleared, or found empty), so layout cannot be replayed in front of a later write.",
+			"R6.5 the flush of pending layout leaves nothing pending on any return (cleared, or found empty), so layout cannot be replayed in front of a later write; " +
+			"R6.6 the separator check hands the comments of a consumed ';' on to the following token (the no-semicolon printer places the restored ';' behind the comments of the statement it protects, so a second formatting would lose them otherwise).",
 		notDecided: []string{"equality of trees after re-parse", "byte-for-byte idempotence of formatting (where the pending-whitespace machine puts layout)", "that indentation changes only LEADING whitespace (R6.1 shows only whitespace can differ, not where)"},
 	})
 }
@@ -52,6 +53,157 @@ func runC06(c *Ctx) {
 	c.rule("R6.5", "the flush of pending layout leaves nothing pending: every return of the flush method is behind a clearing of the buffer or behind a test that found it empty")
 	c.floor(1)
 	ruleFlushLeavesNothing(c)
+
+	c.rule("R6.6", "comments in front of a consumed statement separator stay in the program: the separator check hands the ';' token's trivia on to the token behind it (the no-semicolon printer puts a restored ';' behind the comments of the statement it protects, so on re-formatting those comments lead the ';')")
+	c.floor(1)
+	ruleSeparatorTriviaKept(c)
+}
+
+// ruleSeparatorTriviaKept (R6.6). Formatting `a; // c⏎(b)` without semicolons gives `a // c⏎;(b)`: the restored ';'
+// comes out behind the comment that leads `(b)`. Parsed again, the comment is trivia of the ';' token, which the
+// separator check consumes and no node keeps; unless that trivia is handed on, the second formatting loses the
+// comment (the byte-for-byte stability clause of C06, and a comment of C15 disappears). Decided on the separator check:
+// on every path that consumes the ';', a store into the peek token's comment list of
+// append(<current token's comments>, <peek token's comments>...) — both read after the advance — is passed, or the
+// path has found the current token's comment list empty.
+func ruleSeparatorTriviaKept(c *Ctx) {
+	a := c.parserAnchors()
+	if a == nil || len(a.problems) > 0 || a.expectSemi == nil {
+		c.unres("anchors", token.NoPos, "separator check not resolved")
+		return
+	}
+	f := a.expectSemi
+	var advs []*ssa.Call
+	allInstrs(f, func(_ *ssa.BasicBlock, _ int, in ssa.Instruction) {
+		if call, ok := in.(*ssa.Call); ok && call.Call.StaticCallee() == a.nextTok {
+			advs = append(advs, call)
+		}
+	})
+	if len(advs) == 0 {
+		c.unres(fnName(f)+": consumption of ';'", f.Pos(), "the separator check never advances: the explicit ';' is consumed elsewhere")
+		return
+	}
+	// loads of <tok>.LeadingComments
+	commentsOf := func(v ssa.Value, tok *types.Var) *ssa.UnOp {
+		for {
+			if sl, ok := v.(*ssa.Slice); ok {
+				v = sl.X
+				continue
+			}
+			// a copy: append([]T(nil), x...) / slices.Clone(x)
+			if app, ok := isBuiltinCall(v, "append"); ok && len(app.Call.Args) == 2 && isNilConst(app.Call.Args[0]) {
+				v = app.Call.Args[1]
+				continue
+			}
+			if call, ok := v.(*ssa.Call); ok && extFuncIs(call.Call.StaticCallee(), "slices", "Clone") && len(call.Call.Args) == 1 {
+				v = call.Call.Args[0]
+				continue
+			}
+			break
+		}
+		u, ok := v.(*ssa.UnOp)
+		if !ok || u.Op != token.MUL {
+			return nil
+		}
+		root, path := fieldPath(u.X)
+		if len(path) != 2 || path[0] != tok || path[1].Name() != "LeadingComments" || len(f.Params) == 0 || root != ssa.Value(f.Params[0]) {
+			return nil
+		}
+		return u
+	}
+	type handOn struct {
+		st       *ssa.Store
+		cur, nxt *ssa.UnOp
+	}
+	var hands []handOn
+	allInstrs(f, func(_ *ssa.BasicBlock, _ int, in ssa.Instruction) {
+		st, ok := in.(*ssa.Store)
+		if !ok {
+			return
+		}
+		root, path := fieldPath(st.Addr)
+		if len(path) != 2 || path[0] != a.peek || path[1].Name() != "LeadingComments" || root != ssa.Value(f.Params[0]) {
+			return
+		}
+		app, ok := isBuiltinCall(st.Val, "append")
+		if !ok || len(app.Call.Args) != 2 {
+			c.bad(fnName(f)+": store to the peek token's comments", st.Pos(), "the peek token's comment list is overwritten with something other than append(<current token's comments>, <its own comments>...): comments are dropped or reordered")
+			return
+		}
+		cu, nx := commentsOf(app.Call.Args[0], a.cur), commentsOf(app.Call.Args[1], a.peek)
+		if cu == nil || nx == nil {
+			c.bad(fnName(f)+": store to the peek token's comments", st.Pos(), "the peek token's comment list is overwritten with something other than append(<current token's comments>, <its own comments>...): comments are dropped or reordered")
+			return
+		}
+		// the destination must not share the current token's backing array with a later append: a full slice
+		// expression or a fresh copy is not demanded here (aliasing is R14's subject)
+		hands = append(hands, handOn{st, cu, nx})
+	})
+	n := 0
+	complete := a.enumPaths(f.Blocks[0], func(facts []pathFact, blocks []*ssa.BasicBlock, last *ssa.BasicBlock) {
+		var adv *ssa.Call
+		for _, b := range blocks {
+			for _, call := range callsIn(b) {
+				if call.Call.StaticCallee() == a.nextTok && adv == nil {
+					adv = call
+				}
+			}
+		}
+		if adv == nil {
+			return
+		}
+		n++
+		key := fmt.Sprintf("%s: path #%d that consumes the ';'", fnName(f), n)
+		onPath := func(b *ssa.BasicBlock) bool {
+			for _, x := range blocks {
+				if x == b {
+					return true
+				}
+			}
+			return false
+		}
+		for _, h := range hands {
+			if onPath(h.st.Block()) && instrDominates(adv, h.cur) && instrDominates(adv, h.nxt) && instrDominates(h.cur, h.st) && instrDominates(h.nxt, h.st) {
+				c.ok(key, h.st.Pos(), "the ';' token's comments are prepended to the next token's")
+				return
+			}
+		}
+		// found empty: a test of len(current token's comments) against 0 after the advance
+		for _, pf := range facts {
+			if pf.at.kind != atCmp || pf.at.bin == nil || !instrDominates(adv, pf.at.bin) {
+				continue
+			}
+			for _, pair := range [][2]ssa.Value{{pf.at.bin.X, pf.at.bin.Y}, {pf.at.bin.Y, pf.at.bin.X}} {
+				ln, ok := isBuiltinCall(pair[0], "len")
+				if !ok || commentsOf(ln.Call.Args[0], a.cur) == nil {
+					continue
+				}
+				if k, ok := constInt64(pair[1]); ok && k == 0 {
+					empty := false
+					switch pf.at.bin.Op {
+					case token.GTR, token.NEQ:
+						empty = pf.at.neg && pair[0] == pf.at.bin.X
+					case token.EQL, token.LEQ:
+						empty = !pf.at.neg && pair[0] == pf.at.bin.X
+					case token.LSS: // 0 < len
+						empty = pf.at.neg && pair[0] == pf.at.bin.Y
+					}
+					if empty {
+						c.ok(key, pf.at.bin.Pos(), "the ';' token carries no comments on this path")
+						return
+					}
+				}
+			}
+		}
+		c.bad(key, adv.Pos(), "the explicit ';' is consumed and the comments in front of it are dropped: formatting without semicolons puts a restored ';' behind the comments of the statement it protects (`a // c⏎;(b)`), so formatting that output again loses the comment")
+	})
+	if !complete {
+		c.unres(fnName(f)+": paths", f.Pos(), "too many paths")
+	}
+	if n == 0 {
+		c.unres(fnName(f)+": consumption of ';'", f.Pos(), "no path that consumes the ';' found")
+	}
+	c.info(fnName(f)+": hand-on sites", f.Pos(), "%d", len(hands))
 }
 
 // ruleFlushLeavesNothing: layout that stays pending across a text write is replayed in front of a LATER write — which
